@@ -6,12 +6,23 @@
 
 #  include <atomic>
 
+#  ifdef YACLIB_VERIF
+#    include <yaclib/fault/verif.hpp>
+
+namespace yaclib_std {
+
+template <typename T>
+using atomic = yaclib::detail::Atomic<yaclib::verif::TracedAtomic<yaclib::detail::fiber::Atomic<T>, T>, T>;
+
+}  // namespace yaclib_std
+#  else
 namespace yaclib_std {
 
 template <typename T>
 using atomic = yaclib::detail::Atomic<yaclib::detail::fiber::Atomic<T>, T>;
 
 }  // namespace yaclib_std
+#  endif
 #elif YACLIB_FAULT_ATOMIC == 1
 #  include <yaclib/fault/detail/atomic.hpp>
 
